@@ -33,6 +33,7 @@ func (d *DescribeAclsResponse) encode(pe packetEncoder) error {
 }
 
 func (d *DescribeAclsResponse) decode(pd packetDecoder, version int16) (err error) {
+	d.Version = version
 	throttleTime, err := pd.getInt32()
 	if err != nil {
 		return err
